@@ -234,6 +234,9 @@ def run(ctx):
             for k in list(sys.modules):
                 if k.split(".")[0] == pkg:
                     del sys.modules[k]
+    # a function reached by a nested keep and by a top-level keep / call (optional parameters left at their defaults): one signature
+    from . import c01x
+    c01x.run_toplevel_entry(ctx, res, "entry")
     from . import kf_witnesses
     kf_witnesses.run_witness(res, "C02-KF1", kf_witnesses.c02_from_import_object,
                              "a function reading a non-accepted object imported with 'from m import obj' is recomputed when its file is copied to another accepted module")
